@@ -231,7 +231,11 @@ func orderAndCopies(e *Env) {
 				evs[i].at = e.S.Stamp()
 				l.SendLine(evs[i].wire)
 				if c15 && e.S.Choose(6) == 0 {
-					l.SendLine(":u!i@h.sim AWAY")
+					if e.S.Choose(2) == 0 {
+						l.SendLine("@account=bob;time=2026-10-01T00:00:00.000Z :u!i@h.sim AWAY")
+					} else {
+						l.SendLine(":u!i@h.sim AWAY")
+					}
 				}
 				if barePing && e.S.Choose(6) == 0 {
 					l.SendLine("PING")
@@ -437,12 +441,21 @@ func orderAndCopies(e *Env) {
 				return
 			}
 			handedOut[l] = &invRec{h: -1, seq: -1, set: kind}
-			if len(l.Args) != 0 || l.Tags != nil || (l.Nick != "u" && l.Nick != "") {
+			// (some of the parameterless lines carry tags: account-notify style)
+			tagsOK := l.Tags == nil || reflect.DeepEqual(l.Tags, map[string]string{"account": "bob", "time": "2026-10-01T00:00:00.000Z"})
+			if len(l.Args) != 0 || !tagsOK || (l.Nick != "u" && l.Nick != "") {
 				e.Violation("line-altered", "a %s handler for the parameterless event %s received Args=%q Tags=%q Nick=%q (another invocation's edits?)", kind, l.Cmd, l.Args, l.Tags, l.Nick)
 				return
 			}
 			l.Args = append(l.Args, "edited")
-			l.Tags = map[string]string{"edited": "yes"}
+			if l.Tags != nil {
+				// edit the map that came with the line, in place
+				l.Tags["account"] = "mallory"
+				delete(l.Tags, "time")
+				l.Tags["seen-by"] = kind
+			} else {
+				l.Tags = map[string]string{"edited": "yes"}
+			}
 			l.Nick = "mallory"
 			for i := e.S.Choose(3); i > 0; i-- {
 				simrt.Sleep(0)
